@@ -324,6 +324,15 @@ func shapeFamily(thorough bool) []regosym.Program {
 	progs = append(progs, regosym.FamilyQuantified(thorough)...)
 	progs = append(progs, regosym.FamilyGrouped(thorough)...)
 	progs = append(progs, regosym.FamilyLevels()...)
+	// composite paths: the trace names the path as written (alternatives, inverse steps, @type)
+	for _, pt := range []regosym.Path{
+		regosym.PAlt{Parts: []regosym.Path{regosym.P(0), regosym.Pinv(1)}},
+		regosym.PSeq{Parts: []regosym.Path{regosym.P(0), regosym.PAlt{Parts: []regosym.Path{regosym.P(1), regosym.Pinv(1)}}}},
+		regosym.PSeq{Parts: []regosym.Path{regosym.Pinv(0), regosym.PType{}}},
+	} {
+		progs = append(progs, regosym.Program{Name: "P", Validations: []regosym.Validation{{Name: "v", Level: "violation", Class: 0,
+			F: regosym.And{Fs: []regosym.Formula{regosym.Atom{Path: pt, Kind: "maxCount", N: 0}}}}}})
+	}
 	return progs
 }
 
